@@ -73,6 +73,10 @@ class ScheduledPool:
         self.log = log if log is not None else []
         self.calls = 0
 
+    @property
+    def ncpus(self):          # pathos ProcessingPool exposes both names
+        return self.nodes
+
     def __enter__(self):
         return self
 
